@@ -24,7 +24,7 @@ type c10call struct {
 func VerifC10_Dispatch() {
 	vNativeReset()
 	mode := vInt("mode", 0, 2)
-	shape := vInt("shape", 0, 14)
+	shape := vInt("shape", 0, 16)
 	helpCmd := vBool("helpcmd")
 	gv := positional("gv", "a", "b", "w", "a1", "help", "r", "rs", "we")
 	av := positional("av", "a", "b", "w", "a1", "help", "r", "rs", "we")
@@ -63,6 +63,7 @@ func VerifC10_Dispatch() {
 	we.SetCommandFn(fn("we"))
 	r := opt.NewCommand("r", "require-order only here")
 	r.SetRequireOrder()
+	r.SetUnknownMode(Pass)
 	rf := r.Bool("rf", false)
 	r.SetCommandFn(fn("r"))
 	rs := r.NewCommand("rs", "")
@@ -107,6 +108,13 @@ func VerifC10_Dispatch() {
 	case 14:
 		// a bare optional-value option, the terminator, then a command name: nothing is selected
 		args, wantArgs = []string{"--color", "--", "a"}, []string{"a"}
+	case 15:
+		// an unknown option is the require-order stop point of the command that has it set
+		args, want, wantArgs = []string{"r", "--rf", "--tool", "rs", "--rf"}, "r", []string{"--tool", "rs", "--rf"}
+	case 16:
+		// the same with the unknown option first: the root has no require-order, the
+		// command has, and the command's setting is the one that counts
+		args, want, wantArgs = []string{"r", "--tool", "rs"}, "r", []string{"--tool", "rs"}
 	}
 	vPhase("run")
 	remaining, err := opt.Parse(args)
@@ -134,8 +142,11 @@ func VerifC10_Dispatch() {
 	vAssert("dispatch/target", c.who == want)
 	vAssert("dispatch/context", c.ctxOK)
 	vAssert("dispatch/args", eqStrs(c.args, remaining))
-	if shape == 12 {
+	if shape == 12 || shape == 16 {
 		vAssert("dispatch/no-option-after-stop", !*rf)
+	}
+	if shape == 15 {
+		vAssert("dispatch/option-before-stop", *rf)
 	}
 	if shape == 14 {
 		vAssert("dispatch/optional-keeps-default", *color == "auto")
